@@ -19,6 +19,7 @@ type CV struct {
 	Sort string       // explicit sort when Ty is nil and K is nil
 	AbsOf  string     // for a rebased quantified index: the bare SMT bound variable (absolute index)
 	AbsOff string     // ... and the slice offset it is rebased on (value == AbsOf - AbsOff)
+	P      *Ptr       // for an interior pointer argument (&x.f, &a[i]): where it points, so fields can be read through it
 }
 
 type Env struct {
@@ -578,6 +579,14 @@ func (e *Env) field(v CV, name string) CV {
 		st, ok := p.Elem().Underlying().(*types.Struct)
 		if !ok {
 			panic(cerr("field %s of pointer to non-struct %s", name, t))
+		}
+		if v.P != nil {
+			// interior pointer: read the struct value it designates in the current state
+			inner := CV{T: g.load(e.st, v.P), Ty: p.Elem()}
+			if r, ok := e.tryField(inner, name); ok {
+				return r
+			}
+			panic(cerr("no field %s in %s", name, p.Elem()))
 		}
 		for i := 0; i < st.NumFields(); i++ {
 			if st.Field(i).Name() == name {
